@@ -1608,7 +1608,9 @@ func (inv *Invoker) Acquire() {
 
 func (inv *Invoker) acquire(usePool bool) {
 	if !inv.isCompiled {
+		// callable Go objects run without a child VM, inv.vm may be nil.
 		inv.child = inv.vm
+		return
 	}
 	if inv.child != nil {
 		return
@@ -1633,16 +1635,19 @@ func (inv *Invoker) Release() {
 
 // Invoke invokes the callee object with the given arguments.
 func (inv *Invoker) Invoke(args ...Object) (Object, error) {
+	if !inv.isCompiled {
+		if inv.vm != nil && inv.vm.Aborted() {
+			return Undefined, ErrVMAborted
+		}
+		return inv.invokeObject(inv.callee, args...)
+	}
 	if inv.child == nil {
 		inv.acquire(false)
 	}
 	if inv.child.Aborted() {
 		return Undefined, ErrVMAborted
 	}
-	if inv.isCompiled {
-		return inv.child.Run(inv.vm.globals, args...)
-	}
-	return inv.invokeObject(inv.callee, args...)
+	return inv.child.Run(inv.vm.globals, args...)
 }
 
 func (inv *Invoker) invokeObject(callee Object, args ...Object) (Object, error) {
